@@ -61,6 +61,14 @@ func (e *Exec) evCall(c *ast.CallExpr) Val {
 			e.recordCallEvent(c, args[:1], res)
 			return res
 		}
+		if f, ok := fv.(FuncV); ok && f.Fn != nil && f.Fn.Pkg() != nil && f.Fn.Name() == "DeleteFunc" &&
+			f.Fn.Pkg().Path() == "slices" && len(args) == 2 {
+			e.negateFilter = true
+			res := e.filterAddrs(c, args[0], args[1:])
+			e.negateFilter = false
+			e.recordCallEvent(c, args[:1], res)
+			return res
+		}
 		if sig != nil && sig.Variadic() && !c.Ellipsis.IsValid() {
 			// pack variadic arguments into a fresh slice
 			np := sig.Params().Len() - 1
@@ -564,6 +572,8 @@ func (e *Exec) builtin(c *ast.CallExpr, name string) Val {
 			case *types.Map:
 				r := e.mapLen(x.T)
 				e.assume(sx(">=", r, "0"))
+				// state invariant of Go maps: len == |dom|, in particular len == 0 iff no key is present
+				e.assume(mkEq(mkEq(r, "0"), mkEq(e.mapDom(x.T), "((as const (Array Int Bool)) false)")))
 				return iv(r)
 			case *types.Chan:
 				e.declareFun("chanlen", []string{SInt}, SInt)
@@ -892,7 +902,7 @@ func (e *Exec) filterAddrs(c *ast.CallExpr, in Val, preds []Val) Val {
 		return e.havocVal("filtered", t)
 	}
 	et := elemType(t)
-	e.trusted["library semantics of ma.FilterAddrs (result = order-preserving sub-list satisfying every predicate)"] = true
+	e.trusted["library semantics of ma.FilterAddrs / slices.DeleteFunc (result = order-preserving sub-list whose elements satisfy every predicate / make the delete function false)"] = true
 	base := e.allocRef("filtered")
 	out := SliceV{Base: base, Off: "0", Len: e.fresh("flen", SInt), Cap: e.fresh("fcap", SInt)}
 	e.addFact(mkAnd(sx("<=", "0", out.Len), sx("<=", out.Len, src.Len), sx("<=", out.Len, out.Cap)))
@@ -952,6 +962,9 @@ func (e *Exec) filterAddrs(c *ast.CallExpr, in Val, preds []Val) Val {
 		_ = pcT
 		// "the predicate returned true on this element": the run's defining facts and its result, with every symbol
 		// created during the run turned into a function of the position (one run per element)
+		if e.negateFilter {
+			resT = mkNot(resT) // slices.DeleteFunc keeps the elements for which the function returned false
+		}
 		body := mkAnd(append(local, resT)...)
 		elemAt := fmt.Sprintf("(select %s j!f)", arr)
 		hn := symNum(hx)
